@@ -3,9 +3,15 @@
 EXTENDS Solver, Json
 
 ASSUME JumpIsIteratedSweep
+MC_AllSweeps == SweepOutcomes
+MC_AllDeco == DecoOutcomes
+MC_BothBig == BOOLEAN
+MC_RetrySweeps == {"converge", "notyet", "everr_le", "overflow"}
+MC_RetryDeco == {"ok", "value_error"}
+MC_SmallTol == {FALSE}
 
 (* every maximal behaviour is printed once, as JSON, for the replay driver *)
 Terminal == status \in Raised \cup {"done"}
 Emit == Terminal =>
-          PrintT(<< "BEH", ToJson([periods |-> hist, final |-> status, cap |-> Cap, horizon |-> Horizon, big |-> big]) >>)
+          PrintT(<< "BEH", ToJson([periods |-> hist, final |-> status, cap |-> Cap, horizon |-> Horizon]) >>)
 =============================================================================
